@@ -958,8 +958,86 @@ def muted_curve_cases(ctx):
                           {"suite": "c15-muted", "case": case, "first_failing_clause": "each control point is hit exactly on its own tick"})
 
 
+def companion_cases(ctx):
+    """'one control message on every tick from its first control point to its last' whatever else happens on the timeline: other
+    tracks — scheduled before or after the control track — that finish and are removed in the middle of the curve, or fail and are
+    removed under tolerance, do not cost the control track a tick.  Differential: the control messages are those of the control
+    track alone (the route the Lean model is compared on), tick for tick."""
+    I = iso()
+    isobar = I["isobar"]
+    from isobar.io.output import OutputDevice
+    r = ctx.rng
+
+    class Rec(OutputDevice):
+        def __init__(self):
+            super().__init__()
+            self.now, self.msgs = 0, []
+
+        def control(self, control=0, value=0, channel=0):
+            self.msgs.append((self.now, control, round(float(value), 9), channel))
+
+    class Failing(isobar.Pattern):
+        def __init__(self, at):
+            self.at, self.pos = at, 0
+
+        def __next__(self):
+            self.pos += 1
+            if self.pos > self.at:
+                raise ValueError("companion track fails")
+            return 60
+
+    def play(tpb, vals, durs, mode, nticks, companions):
+        dev = Rec()
+        tl = isobar.Timeline(tempo=120, output_device=dev, clock_source=isobar.DummyClock(ticks_per_beat=tpb))
+        tl.ignore_exceptions = True
+        for (when, kind, n_ev, dur) in companions:
+            if when == "before":
+                tl.schedule({"note": isobar.PSequence([60] * n_ev, 1) if kind == "finishes" else Failing(n_ev), "duration": dur, "gate": 0.5, "channel": 5})
+        tl.schedule({"control": 7, "value": isobar.PSequence(list(vals), 1), "duration": isobar.PSequence(list(durs), 1), "channel": 2}, interpolate=mode)
+        for (when, kind, n_ev, dur) in companions:
+            if when == "after":
+                tl.schedule({"note": isobar.PSequence([62] * n_ev, 1) if kind == "finishes" else Failing(n_ev), "duration": dur, "gate": 0.5, "channel": 6})
+        for j in range(nticks):
+            dev.now = j
+            tl.tick()
+        return dev.msgs
+
+    for i in range(ctx.scale(100, 4000)):
+        tpb = r.choice([2, 4, 8, 24])
+        npts = r.randint(3, 5)
+        vals = [r.randint(0, 127) for _ in range(npts)]
+        durs = [r.randint(1, 2 * tpb) / tpb for _ in range(npts)]
+        mode = r.choice(["linear", "cosine"])
+        total = int(round(sum(durs[:-1]) * tpb))
+        companions = [(r.choice(["before", "before", "after"]), r.choice(["finishes", "finishes", "fails"]), r.randint(1, 3), r.choice([0.5, 1]))
+                      for _ in range(r.randint(1, 3))]
+        nticks = total + 4
+        try:
+            with sched_quiet():
+                ref = play(tpb, vals, durs, mode, nticks, [])
+                got = play(tpb, vals, durs, mode, nticks, companions)
+        except Exception as ex:
+            ctx.note("companion case failed to run: %r" % (ex,))
+            continue
+        case = {"tpb": tpb, "values": vals, "durations_beats": durs, "mode": mode, "companions": companions, "curve_ticks": total}
+        ctx.case(("companion", repr(case)), nontrivial=True, validated=False, sample=dict(case, messages=len(got)) if i < 2 else None)
+        ctx.count("companion:" + mode)
+        if got != ref:
+            j = next((j for j, (x, y) in enumerate(zip(got, ref)) if x != y), min(len(got), len(ref)))
+            ctx.violation("C15:curve-disturbed-by-another-track",
+                          "with companion tracks %s the control track sends %d messages, alone %d; first difference: %s vs %s"
+                          % (companions, len(got), len(ref), got[j:j + 1], ref[j:j + 1]),
+                          {"suite": "c15-companion", "case": case, "first_failing_clause": "one control message on every tick from the first control point to the last"})
+
+
+def sched_quiet():
+    from .. import sched_impl
+    return sched_impl.quiet()
+
+
 def run(ctx):
     resolution_change_cases(ctx)
+    companion_cases(ctx)
     muted_curve_cases(ctx)
     n = ctx.scale(3000, 160000)
     npat = ctx.scale(1200, 40000)
